@@ -942,5 +942,11 @@ def shrink(c):
                 yield dict(c, data=d)
 
 
+def extra_obligations(work):
+    # T-int: the integer helpers this model mirrors, re-translated from the current source
+    import translate_int
+    return translate_int.obligations(work, translate_int.FOR['C01'])
+
+
 if __name__ == '__main__':
     sys.exit(common.main(sys.modules[__name__]))
